@@ -214,53 +214,15 @@ def run(ctx):
     # ------------------------------------------------------------------ R2 key agreement
     r2 = ctx.rule("R2", "status reads the state of the id written at the last submit; ids agree between writer and reader", min_instances=6)
     tb = idx.cls(f"{BASE}:TrackingBackend")
-    st_m = idx.method(tb, "status")
-    sub_m = idx.method(tb, "submit")
+    from .evalhelpers import eval_status, S
+    from .c02 import rule_id_lookup
+    out, st_m = eval_status(ctx)
     scon = f"{st_m.module.relpath}::{st_m.qual}"
-    tparam = st_m.positional_params()[1]
-    # status: id := tracked.get(target.name) ; return states.get(id, UNKNOWN)
-    id_from_name = False
-    ret_ok = False
-    id_var = None
-    for n in walk_no_nested(st_m.node):
-        if isinstance(n, ast.Assign) and isinstance(n.targets[0], ast.Name):
-            t = ast.unparse(n.value)
-            if t in (f"self._tracked_jobs.get({tparam}.name)", f"self._tracked_jobs.get({tparam}.name, None)"):
-                id_from_name = True
-                id_var = n.targets[0].id
-        if isinstance(n, ast.Return) and n.value is not None:
-            t = ast.unparse(n.value)
-            if id_var and t == f"self._job_states.get({id_var}, BackendStatus.UNKNOWN)":
-                ret_ok = True
-            if t == f"self._job_states.get(self._tracked_jobs.get({tparam}.name), BackendStatus.UNKNOWN)":
-                id_from_name = ret_ok = True
-    r2.check(id_from_name and ret_ok, scon, "state of tracked[target.name], UNKNOWN when absent",
-             "TrackingBackend.status does not return the state recorded for the job id tracked under the target's own name (UNKNOWN when absent)",
-             st_m.where)
-    # submit: tracked[target.name] = id returned by ops.submit_target ; states[id] = SUBMITTED
-    sp = sub_m.positional_params()
-    jid = None
-    w_tracked = w_state = False
-    for n in walk_no_nested(sub_m.node):
-        if isinstance(n, ast.Assign) and isinstance(n.targets[0], ast.Name) and any(
-                isinstance(c.func, ast.Attribute) and c.func.attr == "submit_target" for c in _calls(n.value)):
-            if isinstance(n.value, ast.Call):
-                jid = n.targets[0].id
-    for n in walk_no_nested(sub_m.node):
-        if isinstance(n, ast.Assign) and isinstance(n.targets[0], ast.Subscript):
-            tt = ast.unparse(n.targets[0])
-            if tt == f"self._tracked_jobs[{sp[1]}.name]" and isinstance(n.value, ast.Name) and n.value.id == jid:
-                w_tracked = True
-            if jid and tt == f"self._job_states[{jid}]":
-                try:
-                    v = ev.eval(n.value, sub_m.module)
-                    w_state = isinstance(v, EnumVal) and v.member == "SUBMITTED"
-                except CantEval:
-                    pass
-    r2.check(jid is not None and w_tracked and w_state, f"{sub_m.module.relpath}::{sub_m.qual}",
-             "tracked[target.name] := id returned by the scheduler; states[id] := SUBMITTED",
-             "TrackingBackend.submit does not record the id returned by the scheduler under the target's name and mark that id SUBMITTED "
-             "(the next decision in the same run would submit the target again / dependents get a wrong id)", sub_m.where)
+    want = {"T": S("RUNNING"), "U": S("UNKNOWN"), "nostate": S("UNKNOWN")}
+    r2.check(out == want, scon, "state of the id tracked under the target's own name; UNKNOWN when untracked or without a record",
+             f"TrackingBackend.status gives {{tracked+RUNNING: {out.get('T')}, untracked: {out.get('U')}, tracked without record: {out.get('nostate')}}}; "
+             "expected RUNNING / UNKNOWN / UNKNOWN (the state of the target's own latest job and of no other)", st_m.where)
+    rule_id_lookup(ctx, r2)
     # all tracked ids are queried
     init_s = idx.method(tb, "_init_status")
     q_ok = any(isinstance(c.func, ast.Attribute) and c.func.attr == "get_job_states" and c.args and
@@ -278,8 +240,8 @@ def run(ctx):
     from .c07 import rule_tracked_dump
     from .persist import rule_close_writes, rule_exit_persists
     rule_tracked_dump(ctx, r2)
-    rule_exit_persists(ctx, r2)
-    rule_close_writes(ctx, r2)
+    rule_exit_persists(ctx, r2, ("tracked jobs",))
+    rule_close_writes(ctx, r2, ("tracked jobs",))
     sp_m = idx.method(tb, "_get_state_path")
     sp_txt = ast.unparse(sp_m.node)
     r2.check(".gwf" in sp_txt and "self.name" in sp_txt and "self.working_dir" in sp_txt, f"{sp_m.module.relpath}::{sp_m.qual}",
@@ -296,20 +258,12 @@ def run(ctx):
         r2.check(rets and bad is None, f"{m.module.relpath}::{m.qual}::id", "the id handed back is stripped / extracted from the scheduler's output",
                  "the job id returned to gwf is the raw output of the submit command (with its trailing newline): the queue listing never matches it, "
                  "so the job's state is never found and dependents are held on a malformed id", loc(bad, m.module) if bad is not None else m.where)
-    lo = idx.func(f"{LOCAL}:LocalOps.get_job_states")
-    txt = ast.unparse(lo.node)
-    tparam = lo.positional_params()[1]
-    dc = [n for n in walk_no_nested(lo.node) if isinstance(n, ast.DictComp)]
-    ok = False
-    if dc:
-        d = dc[0]
-        g = d.generators[0]
-        kname = g.target.elts[0].id if isinstance(g.target, ast.Tuple) and isinstance(g.target.elts[0], ast.Name) else None
-        key_ok = ast.unparse(d.key) == f"int({kname})"
-        flt_ok = all(ast.unparse(c) == f"int({kname}) in {tparam}" for c in g.ifs)
-        ok = key_ok and flt_ok
-    r2.check(ok, f"{lo.module.relpath}::{lo.qual}", "JSON string keys are converted with int() for both the key and the membership test",
-             "the local backend keys the state map differently from the integer ids it tracks (JSON object keys arrive as strings)", lo.where)
+    from .evalhelpers import eval_local_job_states, S
+    got, lo = eval_local_job_states(ctx)
+    want = {1: S("RUNNING"), 7: S("FAILED"), 9: S("COMPLETED")}
+    r2.check(got == want, f"{lo.module.relpath}::{lo.qual}", "wire keys '1','2','7','9' with tracked ids [1,7,9] -> {1: RUNNING, 7: FAILED (killed), 9: COMPLETED}",
+             f"the local backend maps the pool's answer to {got}; expected {want}: JSON object keys arrive as strings and must be matched to the integer ids gwf tracks, "
+             "only tracked ids are kept", lo.where)
 
     # ------------------------------------------------------------------ R3 Slurm precedence, batching
     r3 = ctx.rule("R3", "Slurm: accounting only when enabled, live queue overrides accounting, batches cover all ids", min_instances=3)
